@@ -297,6 +297,62 @@ pub fn run(thorough: bool, seed: u64, _replay: Option<String>) -> Report {
         }
         charset_normalizer_rs::verif_hooks::flush_caches();
     }
+    // (5) … nor of an analysis that was cut short right before: texts on which the mess detector gives up early, in the
+    // middle of a word (control characters or a burst of punctuation, then a long run of letters), then texts whose own
+    // score is sensitive to what a word looks like (more than ten words, one of them damaged) – each compared with its
+    // answer on cold caches with nothing before it
+    {
+        let junk: Vec<String> = vec![
+            format!("{}{}", "\u{1}".repeat(6), "a".repeat(60)),
+            format!("{}{}", "!?".repeat(8), "abcdefghijklmnopqrstuvwxyzabcdefghijklmnopqrstuvwxyz"),
+            format!("{}{}", "\u{2}\u{3}\u{4}\u{5}\u{6}\u{7}", "Zusammengehoerigkeitsgefuehlsduselei".repeat(2)),
+            format!("{} {}", "#+#+#+#+#+#+#+#+#+#+", "x".repeat(90)),
+        ];
+        let targets: Vec<String> = vec![
+            "alpha beta gam$ma delta epsilon zeta eta theta iota kappa lambda mu nu xi omicron".to_string(),
+            "US$ rate data from four main bank offices show a steady rise over the last ten years of trade".to_string(),
+            "one two thr\u{b2}ee four five six seven eight nine ten eleven twelve thirteen fourteen".to_string(),
+            format!("{} co\u{ae}rp", TEXTS[0].1.chars().take(160).collect::<String>()),
+        ];
+        let mut s = Sett::default();
+        s.fb = false;
+        s.pre = false;
+        for (ti, t) in targets.iter().enumerate() {
+            for e in ["utf-8", "utf-16le", "windows-1252"] {
+                let mut bt = match enc_bytes(t, e) {
+                    Some(b) => b,
+                    None => continue,
+                };
+                if e == "utf-16le" {
+                    let mut m = vec![0xff, 0xfe];
+                    m.append(&mut bt);
+                    bt = m;
+                }
+                s.incl = vec![e.to_string()];
+                charset_normalizer_rs::verif_hooks::flush_caches();
+                let cold = real_detect(&bt, &s);
+                for (ji, j) in junk.iter().enumerate() {
+                    if !thorough && (ti + ji) % 2 == 1 {
+                        continue;
+                    }
+                    let mut sj = Sett::default();
+                    sj.fb = false;
+                    sj.pre = false;
+                    sj.incl = vec!["utf-8".to_string()];
+                    charset_normalizer_rs::verif_hooks::flush_caches();
+                    let _ = real_detect(j.as_bytes(), &sj);
+                    let after = real_detect(&bt, &s);
+                    rep.evaluations += 1;
+                    rep.oracle_checked += 1;
+                    rep.count("oracle:after-an-analysis-cut-short");
+                    if after != cold {
+                        rep.fail("oracle", "C13:chaos-depends-on-earlier-texts", &format!("{} right after a text the analysis gave up on early (#{}): {} || alone: {}", e, ji, after.show(), cold.show()), &bt, Some(&s), "after-cut-short");
+                    }
+                }
+            }
+        }
+        charset_normalizer_rs::verif_hooks::flush_caches();
+    }
     rep.model_rounds = drv.requests;
     rep
 }
